@@ -473,7 +473,7 @@ class Model(Immutable):
 
     def to_dict(self) -> dict[str, Any]:
         if self._initial_individual_estimates is not None:
-            ie = self._initial_individual_estimates.to_dict()
+            ie = self._initial_individual_estimates.to_dict(orient='split')
         else:
             ie = None
         depvars = {str(key): val for key, val in self._dependent_variables.items()}
@@ -499,7 +499,9 @@ class Model(Immutable):
         if ie_dict is None:
             ie = None
         else:
-            ie = pd.DataFrame.from_dict(ie_dict)
+            ie = pd.DataFrame(
+                ie_dict['data'], index=ie_dict['index'], columns=ie_dict['columns']
+            )
         depvars = {Expr.symbol(key): value for key, value in d['dependent_variables'].items()}
         obstrans = {
             Expr.deserialize(key): Expr.deserialize(val)
